@@ -23,6 +23,7 @@ import (
 	"sort"
 	"strings"
 	"sync/atomic"
+	"time"
 
 	"github.com/quay/zlog"
 	"github.com/rs/zerolog"
@@ -83,6 +84,22 @@ func guard(f func() string) (out string) {
 		}
 	}()
 	return f()
+}
+
+// deadline runs f (an in-process call into the library that has no reader to
+// count: a loop that does not read cannot be aborted from outside) in its own
+// goroutine and answers "hang" when it has not returned after 30 s, thousands
+// of times what any of these small inputs needs. The goroutine is left behind
+// (it may spin); the caller reports the input and the run goes on.
+func deadline(f func() string) string {
+	done := make(chan string, 1)
+	go func() { done <- guard(f) }()
+	select {
+	case out := <-done:
+		return out
+	case <-time.After(30 * time.Second):
+		return "hang"
+	}
 }
 
 type harness struct {
@@ -148,7 +165,9 @@ func Run(cfg hx.Config) error {
 		h.raceStream(built)
 		return nil
 	}
-	h.searchStream()
+	if os.Getenv("C06_ONLY") != "inproc" { // development aid: skip the search half
+		h.searchStream()
+	}
 	if n := h.unclassified.Load(); n > 0 {
 		r.Notes["in_process_streams"] = fmt.Sprintf("skipped: the search reported %d unclassified failure(s)", n)
 		return nil
